@@ -98,11 +98,8 @@ fn check_expected(exp: &Option<(String, usize)>, o: &Outcome) -> Option<String> 
 }
 
 fn user_packet(pool: &Pool, len: usize, c: usize) -> Option<(insim::Packet, Vec<u8>)> {
-    let f = pool.frame(len, "pkt", c)?;
-    let (_, p) = standalone(&pool.mode, &f);
-    let p = p?;
-    let enc = try_encode(&pool.mode, &p).ok()?;
-    Some((p, enc))
+    // built from the typed packet, not by decoding a frame with the decoder under test
+    pool.typed(len, c)
 }
 
 // ------------------------------------------------------------------------------------- UDP, blocking
@@ -381,7 +378,14 @@ pub fn run_ws(pool: Arc<Pool>, s: &Session, seed: u64) -> SessionResult {
                     // an orderly closure by the relay: send Close, complete the closing handshake while the
                     // application keeps reading, then drop the TCP connection
                     if let Some(mut sv) = srv.take() {
-                        let _ = sv.close(None).await;
+                        // with or without a status: "going away" (a restarting relay) is as orderly a closure as 1000 / none
+                        use tokio_tungstenite::tungstenite::protocol::{frame::coding::CloseCode, CloseFrame};
+                        let frame = match seed % 3 {
+                            0 => None,
+                            1 => Some(CloseFrame { code: CloseCode::Away, reason: "relay restarting".into() }),
+                            _ => Some(CloseFrame { code: CloseCode::Normal, reason: "bye".into() }),
+                        };
+                        let _ = sv.close(frame).await;
                         let _ = tokio::spawn(async move {
                             let _ = tokio::time::timeout(Duration::from_millis(1200), async {
                                 while let Some(Ok(_)) = sv.next().await {}
